@@ -239,6 +239,26 @@ CLAIMED["C18"] = dict(
     technique="TLA+ spec (Decimal!RoundOK) decided by Apalache on recorded literals with exact integers; TLA+ specs "
               "(WKTRender, GeoJSON) + TLC for structure")
 
+CLAIMED["C17"] = dict(
+    text="Model checking + trace validation: the Calls specification models N client processes calling library "
+         "functions on shared cells, each call a Start, a sequence of single-cell reads and a Return; TLC explores all "
+         "interleavings of 2-3 processes x 2 calls and shows that a read-only footprint makes every call return its "
+         "sequential result (two controls with an operation that sorts its argument in place must be - and are - "
+         "rejected, so the model is not vacuous). The real code is bound to it by trace validation: 29 groups of "
+         "non-mutating exported functions (measures, bounds, accessors, clone, hull, centroids, simplification, ring / "
+         "point / segment predicates, 2-D and 3-D distances, intersectors, every encoder and decoder incl. hex, SQL "
+         "Value, IGC) are called on 11 shared arguments, first alone (twice each) and then from 8 (quick) / 32 "
+         "(thorough) goroutines at once in a binary built with -race; TLC checks on the event log that every "
+         "argument and package variable keeps its initial bitwise snapshot, that every call - sequential repeat or "
+         "concurrent - returns the digest it returned alone, and that the race detector reported no race whose "
+         "writing access is in go-geom.",
+    ref="DESIGN.md 3.8, 4-C17, 8",
+    note="The race detector is the sensor for memory accesses (TLA+ cannot observe them); a control run in which the "
+         "harness itself sorts a shared slice must produce reports, otherwise the check exits 2. Interleavings of the "
+         "real code are those the scheduler produced. Trusted base: " + TB + "; Go's race detector",
+    technique="TLA+ spec (Calls) model-checked by TLC over all interleavings + trace validation of recorded call "
+              "events (CallsTrace) with Go's race detector as the sensor")
+
 NOT_YET = {}
 
 
